@@ -40,9 +40,11 @@ func Replay(id, dir string) int {
 	if main, ok := read("main.tsh"); ok {
 		files := map[string]string{"main.tsh": main}
 		pre := map[string]string{}
-		entries, _ := os.ReadDir(dir)
-		for _, e := range entries {
-			n := e.Name()
+		filepath.Walk(dir, func(p string, info os.FileInfo, err error) error {
+			if err != nil || info.IsDir() {
+				return nil
+			}
+			n, _ := filepath.Rel(dir, p)
 			switch {
 			case strings.HasSuffix(n, ".tsh") && n != "main.tsh" && n != "neutral.tsh":
 				files[n], _ = read(n)
@@ -50,7 +52,8 @@ func Replay(id, dir string) int {
 				c, _ := read(n)
 				pre[strings.TrimPrefix(n, "pre_")] = c
 			}
-		}
+			return nil
+		})
 		stdin, _ := read("stdin.txt")
 		files = realizeHashClasses(files)
 		res, err := nat.RunDrv([]DrvReq{{Op: "transpile", Files: files, Main: "main.tsh", Target: "bash"}, {Op: "transpile", Files: files, Main: "main.tsh", Target: "batch"}}, 60*time.Second)
